@@ -22,8 +22,9 @@ from dvc_objects.fs.local import LocalFileSystem
 from .. import core, tlc, validate
 from ..world import canonical_dir_bytes
 
-FILES = {"foo": b"foo\n", "a/x": b"x x\r\n", "a/sub/y": b"y\n", "a/sub/deep/z": b"", "b/w": b"w\x00"}
-OBJ = {"foo": "of", "a/x": "ax", "a/sub/y": "ay", "a/sub/deep/z": "az", "b/w": "bw"}
+# b/w has the content of a/x: one object listed by both directory objects
+FILES = {"foo": b"foo\n", "a/x": b"x x\r\n", "a/sub/y": b"y\n", "a/sub/deep/z": b"", "b/w": b"x x\r\n"}
+OBJ = {"foo": "of", "a/x": "ax", "a/sub/y": "ay", "a/sub/deep/z": "az", "b/w": "ax"}
 DIRS = {"a": ["a/x", "a/sub/y", "a/sub/deep/z"], "b": ["b/w"]}
 MD5 = {k: hashlib.md5(v).hexdigest() for k, v in FILES.items()}
 
